@@ -64,7 +64,7 @@ func refOf(i int, rpc *RPC) Ref {
 				if rpc.Kind == "unary" {
 					r.Msgs = append(r.Msgs, tag(i, "s", 0))
 				}
-			case op == "ret:nil":
+			case op == "ret:nil" || op == "ret:tnil":
 				r.NoResp = true
 				r.Status, r.Code = "status:Internal:", "Internal"
 			case strings.HasPrefix(op, "ret:st:"):
